@@ -18,7 +18,7 @@ FUNCTIONS = ["debian._deb822_repro.tokens.tokenize_deb822_file", "debian._deb822
              "debian._deb822_repro._util.BufferingIterator.takewhile", "debian._deb822_repro.parsing.Deb822FileElement.dump",
              "debian._deb822_repro.parsing.Deb822Element.convert_to_text"]
 STUBS = []
-ASSUMPTIONS = ["no newline inside a line; the last line is non-empty when it is unterminated"]
+ASSUMPTIONS = ["no newline inside a line; in the terminated forms the (unterminated) last line is non-empty; in the none-terminated form empty strings are blank lines"]
 OUTSIDE = ["documents of more than 3 lines", "more than 3 symbolic characters per line (engine A)", "bytes lines"]
 
 PREFIX = {"F": "", "V": "Ab:", "C": " ", "T": "\t", "H": "#", "W": ""}
@@ -53,9 +53,7 @@ def h_doc(params, a: str, b: str, c: str):
         assume(len(body[n - 1]) > 0)
         lines = [l + "\n" for l in body[:-1]] + [body[n - 1]]
         want = "".join(lines)
-    else:  # none terminated (two or more lines)
-        for l in body:
-            assume(len(l) > 0)
+    else:  # none terminated (two or more lines); an empty string is a blank line here
         lines = list(body)
         want = "".join(l + "\n" for l in body)
     toks = list(tokenize_deb822_file(list(lines)))
@@ -155,7 +153,7 @@ def partitions(tier, seed):
     kinds = ["F", "V", "C", "H", "W"]
     for n in ((1, 2) if q else (1, 2, 3)):
         for ks in itertools.product(kinds, repeat=n):
-            if n == 3 and ks.count("F") > 1:
+            if n == 3 and (ks.count("F") > 1 or not ("F" in ks or "W" in ks)):
                 continue
             for mode in ("all", "last", "none"):
                 if mode == "none" and n < 2:
@@ -167,7 +165,7 @@ def partitions(tier, seed):
                 else:
                     ml = 3 if n == 1 else 2
                 P.append(dict(name="doc/%s/max%d/%s" % ("".join(ks), ml, mode), harness="h_doc",
-                              params=dict(kinds=list(ks), lens=[ml] * n, mode=mode), budget=45 if q else 1200, reach=[],
+                              params=dict(kinds=list(ks), lens=[ml] * n, mode=mode), budget=45 if q else 500, reach=[],
                               bounds="lines of kinds %s (F free, V 'Ab:'+text, C ' '+text, H '#'+text, W blanks) each with 0..%d symbolic chars, newline mode %s" % ("".join(ks), ml, mode)))
     for t in range(len(TEMPLATES)):
         for ln in ((0, 1) if q else (0, 1, 2, 3)):
